@@ -38,7 +38,7 @@ theorem skey_ne11 : (sKwargs = sMethod) = False := by decide
 theorem skey_ne12 : (sKwargs = sParams) = False := by decide
 
 macro "symsimp" "[" hs:Lean.Parser.Tactic.simpLemma,* "]" : tactic => `(tactic|
-  simp [vStr, argPath, kwPath, callRT, resRT, enc, encList, encPairs, jsonKey, serpentHashType, marshalConvList, marshalConvVals,
+  simp [vStr, argPath, kwPath, callRT, resRT, enc, encList, encPairs, jsonKey, serpentHashType, marshalConvList, marshalConvVals, marshalTopList, marshalTopVals,
     dec, decList, decPairs, unhashable, isStrOrBytes,
     Pairs.pushFront, Pairs.lookup, Pairs.erase, recreate, recList, recVals, Pairs.hasKey, firstOf,
     key_ne1, key_ne2, key_ne3, key_ne4, key_ne5, key_ne6, key_ne7, key_ne8, key_ne9, key_ne10, key_ne11, key_ne12, key_ne13, skey_ne1, skey_ne2, skey_ne3, skey_ne4, skey_ne5, skey_ne6, skey_ne7, skey_ne8, skey_ne9, skey_ne10, skey_ne11, skey_ne12, $hs,*])
@@ -65,25 +65,30 @@ theorem sym_json (c : Cfg) (v : Val) : argPath c .json v = resRT c .json v ∧ k
       | error e => constructor <;> symsimp [h1, h2, h3]
       | ok w => constructor <;> symsimp [h1, h2, h3]
 
-theorem sym_marshal (c : Cfg) (v : Val) : argPath c .marshal v = resRT c .marshal v ∧ kwPath c .marshal v = resRT c .marshal v := by
-  cases h0 : marshalConv v with
-  | error e => constructor <;> symsimp [h0]
+theorem sym_marshal (c : Cfg) (hc : c.good = true) (v : Val) :
+    argPath c .marshal v = resRT c .marshal v ∧ kwPath c .marshal v = resRT c .marshal v := by
+  have hl : c.callListItems = c.resListItems := by
+    obtain ⟨x1, x2, o1, o2, r1, r2, k, l1, l2⟩ := c
+    simp only [Cfg.good, Bool.and_eq_true, beq_iff_eq] at hc
+    exact hc.1.2.symm
+  cases h0 : marshalTop c.resListItems v with
+  | error e => constructor <;> symsimp [hl, h0]
   | ok m =>
   cases h1 : enc .marshal true m with
-  | error e => constructor <;> symsimp [h0, h1]
+  | error e => constructor <;> symsimp [hl, h0, h1]
   | ok a =>
     cases h2 : dec .marshal false false a with
-    | error e => constructor <;> symsimp [h0, h1, h2]
+    | error e => constructor <;> symsimp [hl, h0, h1, h2]
     | ok d =>
       cases h3 : recreate .marshal d with
-      | error e => constructor <;> symsimp [h0, h1, h2, h3]
-      | ok w => constructor <;> symsimp [h0, h1, h2, h3]
+      | error e => constructor <;> symsimp [hl, h0, h1, h2, h3]
+      | ok w => constructor <;> symsimp [hl, h0, h1, h2, h3]
 
 theorem sym_msgpack (c : Cfg) (hc : c.good = true) (v : Val) :
     argPath c .msgpack v = resRT c .msgpack v ∧ kwPath c .msgpack v = resRT c .msgpack v := by
-  obtain ⟨x1, x2, o1, o2, r1, r2, k⟩ := c
+  obtain ⟨x1, x2, o1, o2, r1, r2, k, l1, l2⟩ := c
   simp only [Cfg.good, Bool.and_eq_true, Bool.or_eq_true, Bool.not_eq_true'] at hc
-  obtain ⟨⟨⟨hx1, hx2⟩, _⟩, hh⟩ := hc
+  obtain ⟨⟨⟨⟨hx1, hx2⟩, _⟩, _⟩, hh⟩ := hc
   subst hx1; subst hx2
   cases h1 : enc .msgpack true v with
   | error e => constructor <;> symsimp [h1]
@@ -140,11 +145,48 @@ theorem marshalConv_pyval (v m : Val) (hv : pyval v = true) (h : marshalConv v =
   | ext a b => simp [marshalConv] at h
   | _ => simp [marshalConv] at h; subst h; exact hv
 
+theorem marshalConvList_nf : ∀ (xs : Vals), nfList .marshal xs = true → marshalConvList xs = .ok xs
+  | .nil, _ => rfl
+  | .cons x xs, h => by
+    simp only [nfList, Bool.and_eq_true] at h
+    simp [marshalConvList, marshalConv_nf x h.1, marshalConvList_nf xs h.2]
+
+theorem marshalTop_nf (b : Bool) (w : Val) (h : nf .marshal w = true) : marshalTop b w = .ok w := by
+  cases w with
+  | list xs =>
+    cases b
+    · simp [marshalTop]
+    · simp [marshalTop, marshalConvList_nf xs (by simpa [nf] using h)]
+  | _ => first | rfl | (simp [nf] at h)
+
+theorem marshalConvList_pyval : ∀ (xs ys : Vals), pyvalList xs = true → marshalConvList xs = .ok ys → pyvalList ys = true
+  | .nil, ys, _, h => by simp [marshalConvList] at h; subst h; rfl
+  | .cons x xs, ys, hv, h => by
+    simp only [pyvalList, Bool.and_eq_true] at hv
+    simp only [marshalConvList, bind_eq_ok] at h
+    obtain ⟨y, g1, ys', g2, e⟩ := h; cases e
+    simp [pyvalList, marshalConv_pyval x y hv.1 g1, marshalConvList_pyval xs ys' hv.2 g2]
+
+theorem marshalTop_pyval (b : Bool) (v m : Val) (hv : pyval v = true) (h : marshalTop b v = .ok m) : pyval m = true := by
+  cases v with
+  | list xs =>
+    cases b
+    · simp [marshalTop] at h; subst h; exact hv
+    · simp only [marshalTop, if_true, bind_eq_ok] at h
+      obtain ⟨ys, g, e⟩ := h; cases e
+      simpa [pyval] using marshalConvList_pyval xs ys (by simpa [pyval] using hv) g
+  | inst cls fields => exact marshalConv_pyval _ m hv h
+  | uuid t => exact marshalConv_pyval _ m hv h
+  | decimal t => exact marshalConv_pyval _ m hv h
+  | date t => exact marshalConv_pyval _ m hv h
+  | ext a b => exact marshalConv_pyval _ m hv h
+  | _ => exact marshalConv_pyval _ m hv h
+
 /-- hook placement on the result path of a good configuration -/
 theorem good_res_ph (c : Cfg) (hc : c.good = true) : phOK .msgpack c.resExtHook c.resObjHook c.resRecreate := by
-  obtain ⟨x1, x2, o1, o2, r1, r2, k⟩ := c
+  obtain ⟨x1, x2, o1, o2, r1, r2, k, l1, l2⟩ := c
   simp only [Cfg.good, Bool.and_eq_true, Bool.or_eq_true, Bool.not_eq_true'] at hc
-  obtain ⟨⟨⟨hx1, hx2⟩, _⟩, hh⟩ := hc
+  obtain ⟨⟨⟨⟨hx1, hx2⟩, _⟩, _⟩, hh⟩ := hc
   subst hx1; subst hx2
   rcases hh with ⟨⟨⟨ho1, ho2⟩, hr1⟩, hr2⟩ | ⟨⟨⟨ho1, ho2⟩, hr1⟩, hr2⟩ <;> subst ho1 <;> subst ho2 <;> subst hr1 <;> subst hr2 <;>
     simp [phOK]
@@ -163,7 +205,7 @@ theorem res_fixed (c : Cfg) (hc : c.good = true) (s : Ser) (w : Val) (h : nf s w
   | marshal =>
     obtain ⟨a, d, h1, h2, h3⟩ := fix_val .marshal false false true (by simp [phOK]) w h
     simp only [post, if_true] at h3
-    simp [resRT, marshalConv_nf w h, h1, h2, h3]
+    simp [resRT, marshalTop_nf _ w h, h1, h2, h3]
   | json =>
     obtain ⟨a, d, h1, h2, h3⟩ := fix_val .json false false true (by simp [phOK]) w h
     simp only [post, if_true] at h3
@@ -184,7 +226,7 @@ theorem res_range (c : Cfg) (hc : c.good = true) (s : Ser) (v w : Val) (hv : pyv
   | marshal =>
     simp only [resRT, bind_eq_ok] at h
     obtain ⟨m, h0, a, h1, d, h2, h3⟩ := h
-    exact range_val .marshal false false true (by simp [phOK]) m (marshalConv_pyval v m hv h0) a d w h1 h2 (by simp [post, h3])
+    exact range_val .marshal false false true (by simp [phOK]) m (marshalTop_pyval _ v m hv h0) a d w h1 h2 (by simp [post, h3])
   | json =>
     simp only [resRT, bind_eq_ok] at h
     obtain ⟨a, h1, d, h2, h3⟩ := h
